@@ -879,3 +879,16 @@ brk("C09", "mean-field back end differentiates the field with the next field", "
     _sub(TB, '''        current_field_derivative = self._compute_field_derivative(
             current_step, current_state_list, current_field)''', '''        current_field_derivative = self._compute_field_derivative(
             next_step, current_state_list, current_field)''')))
+
+brk("C05", "eigenvalues sorted independently of the eigenvectors", "E3", _sub(
+    BA, "            self._coupling_operator = np.diag(w)\n", "            w = np.sort(w)[::-1]\n            self._coupling_operator = np.diag(w)\n"))
+brk("C05", "eigenvector phases 'normalised' after the decomposition", "E3", _sub(
+    BA, "            self._unitary = v\n", "            v = v / v[0]\n            self._unitary = v\n"))
+brk("C05", "reconstruction assertion removed", "E3", _sub(
+    BA, "            assert np.allclose(tmp_coupling_operator, \\\n                self._unitary @ self._coupling_operator \\\n                @ self._unitary.conjugate().T)\n", ""))
+brk("C11", "Gibbs coefficients computed in real time", "K4", _sub(
+    TE, "                self._dt, k * self._dt, shape=shape, matsubara=True)", "                self._dt, k * self._dt, shape=shape, matsubara=False)"))
+brk("C11", "Gibbs free propagator in real time", "K4", _sub(
+    TE, "            - 1j * self._dt, 0, 0, 0)", "            self._dt, 0, 0, 0)"))
+brk("C11", "Gibbs slice from the original correlations' temperature argument", "K4", _sub(
+    TE, "        self._dt = self._parameters.time_step_length(self._temperature)", "        self._dt = self._parameters.time_step_length(1.0)"))
